@@ -125,14 +125,15 @@ func c12() {
 	udir := filepath.Join(scratch, "unpriv")
 	runUnprivChild(r, "c12-unpriv", map[string]string{"VERIF_CHILD_DIR": udir}, udir)
 	forceRemove(udir)
+	c12InterruptedHashing(r, filepath.Join(scratch, "interrupted"))
 
 	r.Assume("the scratch filesystem (ext4) preserves executability and does not decompose Unicode; the two other behaviour values are not reachable in the sandbox")
 	r.Assume("ignore patterns in this check are restricted to six simple non-negated Mutagen-syntax shapes with an independent predicate each; pattern semantics in general belong to C14/C15")
-	r.Assume("trees are static while scanned")
+	r.Assume("trees are static while scanned, except in the interrupted-hashing cases, where exactly one file is appended to / truncated (or the scan is cancelled) from inside the hasher while that file is in flight; an interference that was not observed (no problem at that path, no cancelled scan) is a skipped case")
 	if r.Counter("unpriv_unreadable_seen_problematic") == 0 {
 		r.Inconclusive("no unreadable object was observed as problematic in the unprivileged child")
 	}
-	r.Finish("random disk trees (files 0..200KiB around rsync block sizes, modes, portable/escaping/absolute/overlong links, FIFOs, non-UTF-8 names, .mutagen-temporary-* names (also non-UTF-8 ones), link targets of 127..513 bytes, ignored names, mode-000 files and directories; directory, file and absent roots) scanned cold by the real core.Scan under 3 symlink x 2 permissions x 2 probe modes as root and as uid 65534, compared with an independent lstat/readlink/sha1 walker, with the snapshot's own counts, with the digest cache and lstat; one warm rescan per tree, and two scans given the previous digest cache (without / with baseline) after files were replaced by new inodes of identical size, ns-mtime and mode; non-trivial = tree with at least one entry; distinct = (uid, modes, feature set of the tree)", 40)
+	r.Finish("random disk trees (files 0..200KiB around rsync block sizes, modes, portable/escaping/absolute/overlong links, FIFOs, non-UTF-8 names, .mutagen-temporary-* names (also non-UTF-8 ones), link targets of 127..513 bytes, ignored names, mode-000 files and directories; directory, file and absent roots) scanned cold by the real core.Scan under 3 symlink x 2 permissions x 2 probe modes as root and as uid 65534, compared with an independent lstat/readlink/sha1 walker, with the snapshot's own counts, with the digest cache and lstat; one warm rescan per tree, and two scans given the previous digest cache (without / with baseline) after files were replaced by new inodes of identical size, ns-mtime and mode; plus interrupted-hashing cases (one counting sha1 wrapper shared by two scans; a marked large file is appended to or truncated after its 1st..3rd Write, or the scan is cancelled while a 34 MiB file is hashed; the same scan's other paths and a following full scan with the same hasher and the kept cache must equal the walker); non-trivial = tree with at least one entry; distinct = (uid, modes, feature set of the tree)", 40)
 }
 
 // c12Cases runs the C12 workload into dir.
